@@ -23,7 +23,7 @@ class EvoWorld(World):
     NAME = "evo"
     LEVEL = "exploration"
     SIM_TIME_UNIT = "physical evolution time (sum of |t - t_prev|)"
-    RUNS = {"quick": 6000, "thorough": 150000}
+    RUNS = {"quick": 10000, "thorough": 250000}
     WALL_CAP = {"quick": 900, "thorough": 3300}
     RULE = (
         "one run = one Evolution object for a drawn (method, state kind, Hamiltonian "
